@@ -482,10 +482,14 @@ impl ProtocolState {
             let pre = *old(self);
             let hit = accepts_acks(pre.state) && pre.pending_publish_operations@.contains_key(pid)
                 && is_qos_publish(*pre.operations@[pre.pending_publish_operations@[pid]].packet, QualityOfService::ExactlyOnce)
-                && pre.operations@[pre.pending_publish_operations@[pid]].qos2_pubrel is Some;      // PUBCOMP only after PUBREC was seen
+                && pre.operations@[pre.pending_publish_operations@[pid]].qos2_pubrel is Some      // PUBCOMP only after PUBREC was seen
+                // C11: a PUBCOMP that arrives while the PUBREL it answers is still being written is a protocol violation
+                && pre.current_operation != Some(pre.pending_publish_operations@[pid]);
             &&& hit ==> r is Ok && removed_exactly(pre, *final(self), pre.pending_publish_operations@[pid]) && final(self).state == pre.state
             &&& !hit ==> r is Err && ack_rejected(pre, *final(self))
         }),
+        // the half-written operation is never the one completed
+        old(self).cur_ok() ==> final(self).cur_ok(),
 //@@at before "Qos2Response::Pubcomp(pubcomp)"
         proof { assert(self.operations@ =~= old(self).operations@); }
 //@@at before "received a pubcomp before sending a pubrel @nth=1/2"
@@ -535,7 +539,9 @@ impl ProtocolState {
             let pre = *old(self);
             let post = *final(self);
             let hit = accepts_acks(pre.state) && pre.pending_publish_operations@.contains_key(pid)
-                && is_qos_publish(*pre.operations@[pre.pending_publish_operations@[pid]].packet, QualityOfService::ExactlyOnce);
+                && is_qos_publish(*pre.operations@[pre.pending_publish_operations@[pid]].packet, QualityOfService::ExactlyOnce)
+                // C11: a PUBREC for an operation that is (again) half-written is a protocol violation, not a completion
+                && pre.current_operation != Some(pre.pending_publish_operations@[pid]);
             let oid = pre.pending_publish_operations@[pid];
             // failing PUBREC: the operation completes with it
             &&& hit && pubrec.reason_code as u8 >= 128 ==> r is Ok && removed_exactly(pre, post, oid) && completion_frame(pre, post) && post.state == pre.state
@@ -556,6 +562,7 @@ impl ProtocolState {
                 }
             &&& !hit ==> r is Err && ack_rejected(pre, post)
         }),
+        old(self).cur_ok() ==> final(self).cur_ok(),
 //@@at after "self.enqueue_operation(*operation_id, ProtocolQueueType::HighPriority, ProtocolEnqueuePosition::Back);"
         proof {
             lemma_wf_op_update(*old(self), *self, old(self).pending_publish_operations@[packet->Pubrec_0.packet_id]);
@@ -1352,6 +1359,279 @@ impl ProtocolState {
                     &&& (!(*op.packet is Subscribe || *op.packet is Unsubscribe || *op.packet is Publish) ==> removed_exactly(pre, post, id))
                 }
         }),
+//@end
+}
+
+// =====================================================================================================
+// connection-closed / session bookkeeping (C01, C04, C09, C10, C15, C18, C11) -- iterator chains desugared (R11-R13)
+// =====================================================================================================
+
+// operations differ at most in their slow-start weight
+pub open spec fn ops_same_except_ss(a: Map<u64, ClientOperation>, b: Map<u64, ClientOperation>) -> bool {
+    &&& a.dom() =~= b.dom()
+    &&& forall|k: u64| #[trigger] a.contains_key(k) ==> b[k] == (ClientOperation { slow_start_ack_value: b[k].slow_start_ack_value, ..a[k] })
+}
+
+// "sent but not yet acknowledged": the operation sits in one of the two in-flight tables
+pub open spec fn awaiting_ack(s: ProtocolState, k: u64) -> bool {
+    s.pending_publish_operations@.values().contains(k) || s.pending_non_publish_operations@.values().contains(k)
+}
+
+pub proof fn lemma_wf_tables_ss(pre: ProtocolState, post: ProtocolState)
+    requires pre.wf_tables(), post == (ProtocolState { operations: post.operations, ..pre }),
+        ops_same_except_ss(pre.operations@, post.operations@),
+        forall|k: u64| #[trigger] post.operations@.contains_key(k) ==> post.operations@[k].slow_start_ack_value <= 1,
+    ensures post.wf_tables(),
+{
+    assert forall|k: u64| #[trigger] post.operations@.contains_key(k) implies
+        post.operations@[k].id == k && k != 0 && k < post.next_operation_id && op_wf(post.operations@[k]) by {
+        assert(pre.operations@.contains_key(k));
+    }
+    assert forall|p: u16| #[trigger] post.allocated_packet_ids@.contains_key(p) implies
+        p != 0 && post.operations@.contains_key(post.allocated_packet_ids@[p]) && post.operations@[post.allocated_packet_ids@[p]].packet_id == Some(p) by {
+        assert(pre.operations@.contains_key(pre.allocated_packet_ids@[p]));
+    }
+    assert forall|k: u64| #[trigger] post.operations@.contains_key(k) implies
+        (post.operations@[k].packet_id matches Some(p) ==> post.allocated_packet_ids@.contains_key(p) && post.allocated_packet_ids@[p] == k) by {
+        assert(pre.operations@.contains_key(k));
+    }
+    assert forall|p: u16| #[trigger] post.pending_publish_operations@.contains_key(p) implies ({
+        let k = post.pending_publish_operations@[p];
+        post.operations@.contains_key(k) && post.operations@[k].packet_id == Some(p) && is_qos1plus_publish(*post.operations@[k].packet) }) by {
+        assert(pre.operations@.contains_key(pre.pending_publish_operations@[p]));
+    }
+    assert forall|p: u16| #[trigger] post.pending_non_publish_operations@.contains_key(p) implies ({
+        let k = post.pending_non_publish_operations@[p];
+        post.operations@.contains_key(k) && post.operations@[k].packet_id == Some(p)
+            && (*post.operations@[k].packet is Subscribe || *post.operations@[k].packet is Unsubscribe) }) by {
+        assert(pre.operations@.contains_key(pre.pending_non_publish_operations@[p]));
+    }
+}
+
+// W3 read through Map::values(): whatever sits in an in-flight table is a tracked operation
+pub proof fn lemma_values_tracked(s: ProtocolState)
+    requires s.wf_tables(),
+    ensures
+        forall|k: u64| #[trigger] s.pending_publish_operations@.values().contains(k) ==> s.operations@.contains_key(k) && is_qos1plus_publish(*s.operations@[k].packet)
+            && s.operations@[k].packet_id is Some && s.pending_publish_operations@.contains_key(s.operations@[k].packet_id->Some_0),
+        forall|k: u64| #[trigger] s.pending_non_publish_operations@.values().contains(k) ==> s.operations@.contains_key(k)
+            && (*s.operations@[k].packet is Subscribe || *s.operations@[k].packet is Unsubscribe)
+            && s.operations@[k].packet_id is Some && s.pending_non_publish_operations@.contains_key(s.operations@[k].packet_id->Some_0),
+{
+    assert forall|k: u64| #[trigger] s.pending_publish_operations@.values().contains(k) implies s.operations@.contains_key(k) && is_qos1plus_publish(*s.operations@[k].packet)
+            && s.operations@[k].packet_id is Some && s.pending_publish_operations@.contains_key(s.operations@[k].packet_id->Some_0) by {
+        let p = choose|p: u16| s.pending_publish_operations@.contains_key(p) && s.pending_publish_operations@[p] == k;
+        assert(s.pending_publish_operations@.contains_key(p));
+    }
+    assert forall|k: u64| #[trigger] s.pending_non_publish_operations@.values().contains(k) implies s.operations@.contains_key(k)
+            && (*s.operations@[k].packet is Subscribe || *s.operations@[k].packet is Unsubscribe)
+            && s.operations@[k].packet_id is Some && s.pending_non_publish_operations@.contains_key(s.operations@[k].packet_id->Some_0) by {
+        let p = choose|p: u16| s.pending_non_publish_operations@.contains_key(p) && s.pending_non_publish_operations@[p] == k;
+        assert(s.pending_non_publish_operations@.contains_key(p));
+    }
+}
+
+impl ProtocolState {
+//@fn gneiss-mqtt/src/protocol.rs ProtocolState::apply_slow_start_initialization props=C09,C11 desugar
+    requires old(self).wf_tables(),
+    ensures final(self).wf_tables(),
+        *final(self) == (ProtocolState { operations: final(self).operations, ..*old(self) }),
+        ops_same_except_ss(old(self).operations@, final(self).operations@),
+        old(self).config.post_reconnect_queue_drain_policy != PostReconnectQueueDrainPolicy::OneAtATime ==> final(self).operations@ =~= old(self).operations@,
+        // C09: exactly the operations the disconnection interrupts (sent, not yet acknowledged) take part in the one-at-a-time drain
+        old(self).config.post_reconnect_queue_drain_policy == PostReconnectQueueDrainPolicy::OneAtATime ==>
+            forall|k: u64| #[trigger] final(self).operations@.contains_key(k) ==>
+                final(self).operations@[k].slow_start_ack_value == (if awaiting_ack(*old(self), k) { 1u32 } else { 0u32 }),
+//@@loop 0 iter=it
+            invariant operations@.len() == it.index@,
+                it.seq().unref().to_set() == self.operations@.dom(),
+                operations@ =~= it.seq().unref().take(it.index@ as int),
+                it.index@ == it.seq().len() ==> operations@ =~= it.seq().unref(),
+//@@loop 1 iter=it
+            invariant
+                *self == (ProtocolState { operations: self.operations, ..*old(self) }),
+                ops_same_except_ss(old(self).operations@, self.operations@),
+                it.seq().to_set() =~= old(self).operations@.dom(),
+                forall|j: int| 0 <= j < it.index@ ==> self.operations@[#[trigger] it.seq()[j]].slow_start_ack_value == 0,
+                forall|k: u64| #[trigger] self.operations@.contains_key(k) ==> self.operations@[k].slow_start_ack_value <= 1,
+                it.index@ == it.seq().len() ==> forall|k: u64| #[trigger] self.operations@.contains_key(k) ==> self.operations@[k].slow_start_ack_value == 0,
+//@@loop 2 iter=it
+            invariant pending_non_publish_operations@.len() == it.index@,
+                it.seq().unref().to_set() == self.pending_non_publish_operations@.values(),
+                pending_non_publish_operations@ =~= it.seq().unref().take(it.index@ as int),
+                it.index@ == it.seq().len() ==> pending_non_publish_operations@ =~= it.seq().unref(),
+//@@loop 3 iter=it
+            invariant
+                *self == (ProtocolState { operations: self.operations, ..*old(self) }),
+                ops_same_except_ss(old(self).operations@, self.operations@),
+                it.seq().to_set() =~= old(self).pending_non_publish_operations@.values(),
+                forall|j: int| 0 <= j < it.seq().len() ==> self.operations@.contains_key(#[trigger] it.seq()[j]),
+                forall|k: u64| #[trigger] self.operations@.contains_key(k) ==> self.operations@[k].slow_start_ack_value <= 1,
+                forall|k: u64| #[trigger] self.operations@.contains_key(k) && !it.seq().contains(k) ==> self.operations@[k].slow_start_ack_value == 0,
+                forall|j: int| 0 <= j < it.index@ ==> self.operations@[#[trigger] it.seq()[j]].slow_start_ack_value == 1,
+                it.index@ == it.seq().len() ==> forall|k: u64| #[trigger] self.operations@.contains_key(k) ==>
+                    self.operations@[k].slow_start_ack_value == (if old(self).pending_non_publish_operations@.values().contains(k) { 1u32 } else { 0u32 }),
+//@@loop 4 iter=it
+            invariant pending_publish_operations@.len() == it.index@,
+                it.seq().unref().to_set() == self.pending_publish_operations@.values(),
+                pending_publish_operations@ =~= it.seq().unref().take(it.index@ as int),
+                it.index@ == it.seq().len() ==> pending_publish_operations@ =~= it.seq().unref(),
+//@@loop 5 iter=it
+            invariant
+                *self == (ProtocolState { operations: self.operations, ..*old(self) }),
+                ops_same_except_ss(old(self).operations@, self.operations@),
+                it.seq().to_set() =~= old(self).pending_publish_operations@.values(),
+                forall|j: int| 0 <= j < it.seq().len() ==> self.operations@.contains_key(#[trigger] it.seq()[j]),
+                forall|k: u64| #[trigger] self.operations@.contains_key(k) ==> self.operations@[k].slow_start_ack_value <= 1,
+                forall|k: u64| #[trigger] self.operations@.contains_key(k) && !it.seq().contains(k) ==>
+                    self.operations@[k].slow_start_ack_value == (if old(self).pending_non_publish_operations@.values().contains(k) { 1u32 } else { 0u32 }),
+                forall|j: int| 0 <= j < it.index@ ==> self.operations@[#[trigger] it.seq()[j]].slow_start_ack_value == 1,
+                it.index@ == it.seq().len() ==> forall|k: u64| #[trigger] self.operations@.contains_key(k) ==>
+                    self.operations@[k].slow_start_ack_value == (if awaiting_ack(*old(self), k) { 1u32 } else { 0u32 }),
+//@@at before "for id in it: pending_non_publish_operations"
+        proof {
+            lemma_values_tracked(*old(self));
+            assert(pending_non_publish_operations@.to_set() =~= old(self).pending_non_publish_operations@.values());
+            assert forall|j: int| 0 <= j < pending_non_publish_operations@.len() implies self.operations@.contains_key(#[trigger] pending_non_publish_operations@[j]) by {
+                assert(pending_non_publish_operations@.to_set().contains(pending_non_publish_operations@[j]));
+                assert(old(self).operations@.contains_key(pending_non_publish_operations@[j]));
+            }
+        }
+//@@at before "for id in it: pending_publish_operations"
+        proof {
+            lemma_values_tracked(*old(self));
+            assert(pending_publish_operations@.to_set() =~= old(self).pending_publish_operations@.values());
+            assert forall|j: int| 0 <= j < pending_publish_operations@.len() implies self.operations@.contains_key(#[trigger] pending_publish_operations@[j]) by {
+                assert(pending_publish_operations@.to_set().contains(pending_publish_operations@[j]));
+                assert(old(self).operations@.contains_key(pending_publish_operations@[j]));
+            }
+        }
+//@@at bodyend
+        proof { lemma_wf_tables_ss(*old(self), *self); }
+//@end
+}
+
+// operations differ at most in their interruption count
+pub open spec fn ops_same_except_ic(a: Map<u64, ClientOperation>, b: Map<u64, ClientOperation>) -> bool {
+    &&& a.dom() =~= b.dom()
+    &&& forall|k: u64| #[trigger] a.contains_key(k) ==> b[k] == (ClientOperation { interruption_count: b[k].interruption_count, ..a[k] })
+}
+
+pub proof fn lemma_wf_tables_ic(pre: ProtocolState, post: ProtocolState)
+    requires pre.wf_tables(), post == (ProtocolState { operations: post.operations, ..pre }),
+        ops_same_except_ic(pre.operations@, post.operations@),
+    ensures post.wf_tables(),
+{
+    assert forall|k: u64| #[trigger] post.operations@.contains_key(k) implies
+        post.operations@[k].id == k && k != 0 && k < post.next_operation_id && op_wf(post.operations@[k]) by {
+        assert(pre.operations@.contains_key(k));
+    }
+    assert forall|p: u16| #[trigger] post.allocated_packet_ids@.contains_key(p) implies
+        p != 0 && post.operations@.contains_key(post.allocated_packet_ids@[p]) && post.operations@[post.allocated_packet_ids@[p]].packet_id == Some(p) by {
+        assert(pre.operations@.contains_key(pre.allocated_packet_ids@[p]));
+    }
+    assert forall|k: u64| #[trigger] post.operations@.contains_key(k) implies
+        (post.operations@[k].packet_id matches Some(p) ==> post.allocated_packet_ids@.contains_key(p) && post.allocated_packet_ids@[p] == k) by {
+        assert(pre.operations@.contains_key(k));
+    }
+    assert forall|p: u16| #[trigger] post.pending_publish_operations@.contains_key(p) implies ({
+        let k = post.pending_publish_operations@[p];
+        post.operations@.contains_key(k) && post.operations@[k].packet_id == Some(p) && is_qos1plus_publish(*post.operations@[k].packet) }) by {
+        assert(pre.operations@.contains_key(pre.pending_publish_operations@[p]));
+    }
+    assert forall|p: u16| #[trigger] post.pending_non_publish_operations@.contains_key(p) implies ({
+        let k = post.pending_non_publish_operations@[p];
+        post.operations@.contains_key(k) && post.operations@[k].packet_id == Some(p)
+            && (*post.operations@[k].packet is Subscribe || *post.operations@[k].packet is Unsubscribe) }) by {
+        assert(pre.operations@.contains_key(pre.pending_non_publish_operations@[p]));
+    }
+}
+
+// a sequence that enumerates the values of an injective table once each has no duplicates
+pub proof fn lemma_inj_nodup(m: Map<u16, u64>, s: Seq<u64>)
+    requires s.to_set() =~= m.values(), s.len() == m.len(),
+        forall|p: u16, q: u16| m.contains_key(p) && m.contains_key(q) && #[trigger] m[p] == #[trigger] m[q] ==> p == q,
+    ensures s.no_duplicates(),
+{
+    assert(m.is_injective());
+    m.lemma_injective_values_len();
+    s.lemma_no_dup_set_cardinality();
+}
+
+// Assumption A-INTERRUPT: one operation is interrupted fewer than 2^32 - 1 times (u32 counter, `+= 1`)
+pub open spec fn interruptions_in_range(s: ProtocolState) -> bool {
+    forall|k: u64| #[trigger] s.operations@.contains_key(k) ==> s.operations@[k].interruption_count < u32::MAX
+}
+
+impl ProtocolState {
+//@fn gneiss-mqtt/src/protocol.rs ProtocolState::update_interrupted_retries props=C18,C11 desugar
+    requires old(self).wf_tables(), interruptions_in_range(*old(self)),
+    ensures final(self).wf_tables(),
+        *final(self) == (ProtocolState { operations: final(self).operations, ..*old(self) }),
+        ops_same_except_ic(old(self).operations@, final(self).operations@),
+        // C18: with a retry limit configured, every operation caught sent-but-unacknowledged by this disconnection is charged
+        // exactly one interruption, every other operation none; without a limit nothing is counted
+        forall|k: u64| #[trigger] final(self).operations@.contains_key(k) ==> final(self).operations@[k].interruption_count ==
+            (if old(self).config.max_interrupted_retries is Some && awaiting_ack(*old(self), k) { (old(self).operations@[k].interruption_count + 1) as u32 }
+             else { old(self).operations@[k].interruption_count }),
+//@@loop 0 iter=it
+            invariant pending_non_publish_operations@.len() == it.index@,
+                it.seq().len() == self.pending_non_publish_operations@.len(),
+                it.seq().unref().to_set() == self.pending_non_publish_operations@.values(),
+                pending_non_publish_operations@ =~= it.seq().unref().take(it.index@ as int),
+                it.index@ == it.seq().len() ==> pending_non_publish_operations@ =~= it.seq().unref(),
+//@@loop 1 iter=it
+            invariant
+                *self == (ProtocolState { operations: self.operations, ..*old(self) }),
+                ops_same_except_ic(old(self).operations@, self.operations@),
+                it.seq().to_set() =~= old(self).pending_non_publish_operations@.values(), it.seq().no_duplicates(), interruptions_in_range(*old(self)),
+                forall|j: int| 0 <= j < it.seq().len() ==> self.operations@.contains_key(#[trigger] it.seq()[j]),
+                forall|k: u64| #[trigger] self.operations@.contains_key(k) && !it.seq().contains(k) ==> self.operations@[k].interruption_count == old(self).operations@[k].interruption_count,
+                forall|j: int| 0 <= j < it.index@ ==> self.operations@[#[trigger] it.seq()[j]].interruption_count == old(self).operations@[it.seq()[j]].interruption_count + 1,
+                forall|j: int| it.index@ <= j < it.seq().len() ==> self.operations@[#[trigger] it.seq()[j]].interruption_count == old(self).operations@[it.seq()[j]].interruption_count,
+                it.index@ == it.seq().len() ==> forall|k: u64| #[trigger] self.operations@.contains_key(k) ==> self.operations@[k].interruption_count ==
+                    (if old(self).pending_non_publish_operations@.values().contains(k) { (old(self).operations@[k].interruption_count + 1) as u32 } else { old(self).operations@[k].interruption_count }),
+//@@loop 2 iter=it
+            invariant pending_publish_operations@.len() == it.index@,
+                it.seq().len() == self.pending_publish_operations@.len(),
+                it.seq().unref().to_set() == self.pending_publish_operations@.values(),
+                pending_publish_operations@ =~= it.seq().unref().take(it.index@ as int),
+                it.index@ == it.seq().len() ==> pending_publish_operations@ =~= it.seq().unref(),
+//@@loop 3 iter=it
+            invariant
+                *self == (ProtocolState { operations: self.operations, ..*old(self) }),
+                ops_same_except_ic(old(self).operations@, self.operations@),
+                it.seq().to_set() =~= old(self).pending_publish_operations@.values(), it.seq().no_duplicates(), interruptions_in_range(*old(self)),
+                forall|j: int| 0 <= j < it.seq().len() ==> self.operations@.contains_key(#[trigger] it.seq()[j]) && !old(self).pending_non_publish_operations@.values().contains(it.seq()[j]),
+                forall|k: u64| #[trigger] self.operations@.contains_key(k) && !it.seq().contains(k) ==> self.operations@[k].interruption_count ==
+                    (if old(self).pending_non_publish_operations@.values().contains(k) { (old(self).operations@[k].interruption_count + 1) as u32 } else { old(self).operations@[k].interruption_count }),
+                forall|j: int| 0 <= j < it.index@ ==> self.operations@[#[trigger] it.seq()[j]].interruption_count == old(self).operations@[it.seq()[j]].interruption_count + 1,
+                forall|j: int| it.index@ <= j < it.seq().len() ==> self.operations@[#[trigger] it.seq()[j]].interruption_count == old(self).operations@[it.seq()[j]].interruption_count,
+                it.index@ == it.seq().len() ==> forall|k: u64| #[trigger] self.operations@.contains_key(k) ==> self.operations@[k].interruption_count ==
+                    (if awaiting_ack(*old(self), k) { (old(self).operations@[k].interruption_count + 1) as u32 } else { old(self).operations@[k].interruption_count }),
+//@@at before "for id in it: pending_non_publish_operations"
+        proof {
+            lemma_values_tracked(*old(self));
+            assert(pending_non_publish_operations@.to_set() =~= old(self).pending_non_publish_operations@.values());
+            lemma_inj_nodup(old(self).pending_non_publish_operations@, pending_non_publish_operations@);
+            assert forall|j: int| 0 <= j < pending_non_publish_operations@.len() implies self.operations@.contains_key(#[trigger] pending_non_publish_operations@[j]) by {
+                assert(pending_non_publish_operations@.to_set().contains(pending_non_publish_operations@[j]));
+                assert(old(self).operations@.contains_key(pending_non_publish_operations@[j]));
+            }
+        }
+//@@at before "for id in it: pending_publish_operations"
+        proof {
+            lemma_values_tracked(*old(self));
+            assert(pending_publish_operations@.to_set() =~= old(self).pending_publish_operations@.values());
+            lemma_inj_nodup(old(self).pending_publish_operations@, pending_publish_operations@);
+            assert forall|j: int| 0 <= j < pending_publish_operations@.len() implies self.operations@.contains_key(#[trigger] pending_publish_operations@[j])
+                && !old(self).pending_non_publish_operations@.values().contains(pending_publish_operations@[j]) by {
+                assert(pending_publish_operations@.to_set().contains(pending_publish_operations@[j]));
+                assert(old(self).operations@.contains_key(pending_publish_operations@[j]));
+            }
+        }
+//@@at bodyend
+        proof { lemma_wf_tables_ic(*old(self), *self); }
 //@end
 }
 
